@@ -1979,33 +1979,59 @@ def run_model(ctx, texts):
                      % (stream, ans[:150], got[:150]), {"text": text, "model": ans, "implementation": got})
 
 
+def _term_of(script, what):
+    """the term of the command argument named `assert#i`, `define-fun#i`, `get-value#i.j`"""
+    idx = what.split("#")[1]
+    ci = int(idx.split(".")[0])
+    ai = int(idx.split(".")[1]) if "." in idx else 0
+    c = script.commands[ci]
+    if c.name == "define-fun":
+        return c.args[3]
+    return c.args[ai]
+
+
 def replay(ctx, rep):
+    """re-run the recorded case against the current tree"""
     r = rep["replay"]
+    sig = rep.get("sig", {})
     if "file" in r:
         base, _ = corpus_files(common.REPO)
         res = run_impl(read_file(os.path.join(base, r["file"])))
         print("corpus file", r["file"], "->", res[0], res[1:] if res[0] == "err" else "")
-        if res[0] == "err" and r["file"] not in CORPUS_REJECTED:
-            ctx.report_s(rep["sig"], rep["what"], r)
+        if (res[0] == "err") != (r["file"] in CORPUS_REJECTED):
+            ctx.report_s(sig, rep["what"], r)
+        return
+    if "text" not in r:
+        print("nothing to replay:", rep.get("what"))
         return
     text = r["text"]
     res = run_impl(text)
     print("text:\n" + text)
     if res[0] == "err":
         print("implementation: rejected with %s: %s" % (res[1], res[2]))
-        if rep["sig"].get("oracle") == "accept":
-            ctx.report_s(rep["sig"], rep["what"], r)
+        if sig.get("oracle") in ("accept", "meaning", "std-reader", "commands"):
+            if sig.get("oracle") == "accept":
+                ctx.report_s(sig, rep["what"], r)
         return
     print("implementation: accepted")
     for c in res[1].commands:
         if c.name in TERM_CMDS:
             print("  ", c.name, [semantic.readable(a) if hasattr(a, "serialize") else a for a in c.args])
-    if rep["sig"].get("oracle") == "reject":
-        ctx.report_s(rep["sig"], rep["what"], r)
-    elif "request" in r:
-        ans = ctx.lean_run("Sem", [r["request"]])[0]
-        print("recorded intended:", r.get("intended"), " recorded returned:", r.get("returned"))
-        print("semantic oracle on the recorded pair:", ans)
-        # recompute with the current tree: the returned term is re-encoded from the fresh parse
+    if sig.get("oracle") == "reject":
+        ctx.report_s(sig, rep["what"], r)
+    elif "request" in r and "command" in r:
+        # the recorded request is `chk_equiv k <interps> <intended> <returned>`: replace the returned term by the one the
+        # current tree returns for the same command argument
+        line = r["request"]
+        try:
+            got = _term_of(res[1], r["command"])
+            line = line[:line.rindex(" T ")] + " " + wire.enc_term(got)
+            print("returned now:", semantic.readable(got))
+        except (IndexError, ValueError, wire.OutOfFragment) as e:
+            print("cannot locate the command argument in the new parse (%r): using the recorded term" % (e,))
+        ans = ctx.lean_run("Sem", [line])[0]
+        print("intended:", r.get("intended"), "\nsemantic oracle:", ans)
         if not ans.startswith("ok"):
-            ctx.report_s(rep["sig"], rep["what"], r)
+            ctx.report_s(sig, rep["what"], dict(r, request=line, answer=ans))
+    elif sig.get("oracle") == "commands":
+        ctx.report_s(sig, rep["what"], r)
